@@ -133,7 +133,8 @@ fn lib_bad_cluster(pair: u8, known: bool) {
     assert!(c.cluster_state.node_states().len() == 1 + known as usize, "C16: membership changed by a foreign SYN");
     assert!(fdx::fd_sizes(&c.failure_detector) == (0, 0, 0), "C16: failure detector state touched by a foreign SYN");
     let own_after = frontier(&c, &sid()).unwrap();
-    assert!(own_after.0 == own_before.0 && own_after.1 == own_before.1 && own_after.2 == own_before.2 + 1, "C05/C16: own state changed beyond the heartbeat tick");
+    // (whether a rejected SYN ticks the own heartbeat is not C16's business: only that it never goes back)
+    assert!(own_after.0 == own_before.0 && own_after.1 == own_before.1 && own_after.2 >= own_before.2, "C05/C16: own key-value frontier changed / heartbeat went back on a foreign SYN");
     std::mem::forget(c); std::mem::forget(reply);
 }
 fn lib_bad_cluster_reply() {
@@ -336,6 +337,60 @@ fn stub_compute_digest(_c: &Chitchat, _sched: &HashSet<&ChitchatId>) -> Digest {
 /// cut for C16: the digest-processing entry point is replaced by a marker; a foreign SYN must never reach it
 static mut DIGEST_PROCESSED: bool = false;
 fn stub_report_heartbeats(_c: &mut Chitchat, _digest: &Digest) { unsafe { DIGEST_PROCESSED = true; } }
+// ---------------------------------------------------------------------------------------------
+// C20: message glue. ClusterState::apply_delta is replaced by its contract (returns the reset flag: ANY bool; what the flag means is
+// decided on the real function by c20_scalar_* / c20_apply_*); everything else on the path message -> process_delta -> callback is real.
+static mut APPLY_CALLS: u32 = 0;
+static mut APPLY_FLAGS: u32 = 0;
+fn stub_apply_delta(_cs: &mut ClusterState, delta: Delta) -> bool {
+    std::mem::forget(delta);
+    let f: bool = kani::any();
+    unsafe { APPLY_CALLS += 1; if f { APPLY_FLAGS += 1; } }
+    f
+}
+/// arm: 0 Syn (same cluster), 1 SynAck, 2 Ack, 3 BadCluster, 4 Syn (other cluster), 5 = process_delta called directly for two messages in a row
+fn lib_c20_message(arm: u8, with_callback: bool) {
+    unsafe { CALLBACKS = 0; APPLY_CALLS = 0; APPLY_FLAGS = 0; DIGEST_PROCESSED = false; }
+    let mut c = mk_chitchat(3600, with_callback, false);
+    let mut digest = Digest::default();
+    if arm <= 1 || arm == 4 { digest.node_digests.insert(xid(), NodeDigest { heartbeat: Heartbeat(kani::any()), last_gc_version: kani::any(), max_version: kani::any() }); }
+    let mut flags_first = 0u32;
+    let mut calls_first = 0u32;
+    let reply = match arm {
+        0 => c.process_message(ChitchatMessage::Syn { cluster_id: "c".to_string(), digest }),
+        1 => c.process_message(ChitchatMessage::SynAck { digest, delta: Delta::default() }),
+        2 => c.process_message(ChitchatMessage::Ack { delta: Delta::default() }),
+        3 => c.process_message(ChitchatMessage::BadCluster),
+        4 => c.process_message(ChitchatMessage::Syn { cluster_id: "d".to_string(), digest }),
+        _ => {
+            c.process_delta(Delta::default());
+            unsafe { flags_first = APPLY_FLAGS; calls_first = CALLBACKS; }
+            c.process_delta(Delta::default());
+            None
+        }
+    };
+    let (applies, flags, calls) = unsafe { (APPLY_CALLS, APPLY_FLAGS, CALLBACKS) };
+    kani::cover!(applies >= 1 && flags == applies, "the delta of the message reset a copy");
+    kani::cover!(applies >= 1 && flags == 0, "the delta of the message reset nothing");
+    kani::cover!(arm == 5 && flags_first == 1 && flags == 2, "two messages in a row each reset a copy");
+    // a message reset a copy iff some application of its delta reported a reset (one application per message on this tree)
+    let expect = (flags_first > 0) as u32 + (flags > flags_first) as u32;
+    if with_callback {
+        assert!(calls_first == (flags_first > 0) as u32, "C20: catch-up callback must run exactly once iff the message reset at least one copy");
+        assert!(calls == expect, "C20: catch-up callback must run exactly once for every message that reset at least one copy, and for no other");
+    } else { assert!(calls == 0, "C20: callback invoked although none is configured"); }
+    std::mem::forget(c); std::mem::forget(reply);
+}
+macro_rules! h_lib_c20 { ($name:ident, $unw:expr, $body:expr) => {
+    #[kani::proof]
+    #[kani::unwind($unw)]
+    #[kani::stub(crate::listener::Listeners::trigger_event, noop_trigger)]
+    #[kani::stub(crate::state::ClusterState::compute_partial_delta_respecting_mtu, stub_empty_delta)]
+    #[kani::stub(crate::Chitchat::compute_digest, stub_compute_digest)]
+    #[kani::stub(crate::Chitchat::report_heartbeats_in_digest, stub_report_heartbeats)]
+    #[kani::stub(crate::state::ClusterState::apply_delta, stub_apply_delta)]
+    fn $name() { $body }
+}}
 /// cut for C16: on the same-cluster path the content of the reply is irrelevant (any reply other than BadCluster is the violation)
 fn stub_empty_delta(_cs: &ClusterState, _digest: &Digest, _mtu: usize, _sched: &HashSet<&ChitchatId>) -> Delta { Delta::default() }
 /// cut for C16: a SYN never carries a delta; the other arms of process_message are unreachable for it but CBMC cannot fold the
